@@ -95,6 +95,14 @@ impl Ctrl {
     }
 }
 
+/// the schedule was aborted (deadlock or step limit): this thread stops where it is, holding what it holds; the harness
+/// reads the log and ends the process
+fn halt() -> ! {
+    loop {
+        std::thread::sleep(std::time::Duration::from_secs(3600));
+    }
+}
+
 /// give other threads the chance to run; returns when this thread holds the baton again
 fn yield_point(me: usize, event: Option<String>) {
     let mut g = ctrl_lock();
@@ -121,7 +129,7 @@ fn yield_point(me: usize, event: Option<String>) {
         };
         if c.abort {
             drop(g);
-            panic!("verif-sched-abort");
+            halt();
         }
         if c.current == me && c.state[me] == TState::Runnable {
             return;
@@ -202,7 +210,7 @@ fn acquire(me: usize, addr: usize, site: Site, mode: Mode, try_only: bool) -> bo
             };
             if c.abort {
                 drop(g);
-                panic!("verif-sched-abort");
+                halt();
             }
             if c.current == me && c.state[me] == TState::Runnable {
                 break;
@@ -296,7 +304,7 @@ pub mod sched {
             };
             if c.abort {
                 drop(g);
-                panic!("verif-sched-abort");
+                halt();
             }
             // thread 0 starts; the others wait for the baton
             let all_in = c.state.iter().all(|s| *s != TState::NotStarted);
@@ -331,6 +339,12 @@ pub mod sched {
         if let Some(c) = g.as_mut() {
             c.log.push(format!("t{} note {}", i, text));
         }
+    }
+
+    /// true once the schedule has been aborted (deadlock / step limit): the threads still inside it never return
+    pub fn aborted() -> bool {
+        let g = ctrl_lock();
+        g.as_ref().map_or(false, |c| c.abort)
     }
 
     /// end the schedule: (event log, deadlock detected, scheduling points used)
